@@ -33,7 +33,7 @@ package main
 //              writes TreeMatrixTable.lean + the chunk lemma files into -out (no traces)
 //
 // Known findings are tagged KNOWN[<id>] only when the characterised defect's direct symptom is present in the trace
-// (trSymptoms, trAfterElement, the tombstone / mixed-content tests of indexPath) or, for the pinned divergent pairs of the
+// (trSymptoms, the tombstone / mixed-content tests of indexPath) or, for the pinned divergent pairs of the
 // real-merge family, by the `KNOWN <id>` line the generator writes into the trace (trXMergeKnown).
 //
 // Replay: the API-level lines (R, RS, U, S, SNAP, Q, KNOWN, CASE) carry every choice; OP/M/MC/X/D/P/IP/RUN lines of a
@@ -467,13 +467,6 @@ type trWorld struct {
 	softHits []string
 	// knownTag, when set, replaces the symptom tags: the run is one of the pinned, named divergent pairs
 	knownTag string
-	// text-start anchors (c19-findpos-after-element): positions FindPos built for an index right after an element and right
-	// before a text, whose left sibling is (id of that text piece, offset 0) - keyed by that id, with the length the piece
-	// had on the replica that built the position
-	anchors map[string]int
-	// anchorSplit: evidence that such an anchor was resolved against a piece of a DIFFERENT length on another copy (a
-	// concurrent insert / delete split the text): there the same operation addresses a different place
-	anchorSplit []string
 }
 
 func newTrWorld(c *Ctx) *trWorld {
@@ -647,9 +640,6 @@ func (w *trWorld) update(rep *trReplica, cl trCall) {
 				c.Obs("from=err to=err")
 			} else {
 				c.Obs("from=%s to=%s", trPos(fp), trPos(tp))
-				xb := t.ToXML()
-				w.noteAnchor(t.Tree, xb, cl.from, fp)
-				w.noteAnchor(t.Tree, xb, cl.to, tp)
 			}
 			w.indexPath(rep, t.Tree, cl.from)
 			if cl.to != cl.from {
@@ -694,14 +684,9 @@ func (w *trWorld) update(rep *trReplica, cl trCall) {
 		if exp, ok := trReference(refBefore, cl); ok {
 			refOK = true
 			if got := t.ToXML(); got != exp {
-				tag := ""
-				if trAfterElement(refBefore, cl.from) || trAfterElement(refBefore, cl.to) {
-					// FindPos resolves such an index to (text node, offset 0), which Edit reads as AFTER that text node
-					tag = "KNOWN[c19-findpos-after-element] "
-				}
-				if st := w.trSymptoms(); st != "" {
-					tag = st
-				}
+				// (an index right after an element and right before a text used to be tagged c19-findpos-after-element here;
+				// repaired by hooks/fix-c19-findpos-after-element.patch, 74247a0f: a recurrence is a plain violation)
+				tag := w.trSymptoms()
 				if trArg("orc", "") != "c01" { // the single-replica reference check is C07's statement, not C01's
 					c.Oracle("%sC07 %s on %s: before=%s after=%s expected=%s", tag, trEncCall(cl), rep.name, refBefore, got, exp)
 				}
@@ -814,7 +799,6 @@ func (w *trWorld) sync(rep *trReplica) {
 			return
 		}
 		for _, cn := range mine {
-			w.checkAnchors(s, cn)
 			var aerr error
 			if rec := safely(func() { _, _, aerr = s.srv.ApplyChangesForReplay(cn) }); rec != nil {
 				aerr = fmt.Errorf("panic: %v", rec)
@@ -856,7 +840,6 @@ func (w *trWorld) sync(rep *trReplica) {
 	applied := 0
 	for i, cn := range wire {
 		resp := change.NewPack(rep.doc.Key(), change.NewCheckpoint(rep.cpS+int64(i)+1, rep.pushedC), []*change.Change{cn}, nil, nil)
-		w.checkAnchors(rep, cn)
 		var aerr error
 		if rec := safely(func() { aerr = rep.doc.ApplyChangePack(resp) }); rec != nil {
 			aerr = fmt.Errorf("panic: %v", rec)
@@ -1036,71 +1019,11 @@ func (w *trWorld) exec(line string) (err error) {
 // ---------------------------------------------------------------------------------------------
 // known findings: each tag is attached only when the direct symptom of the characterised defect is present
 
-// noteAnchor records the position FindPos built for `idx` when it has the listed shape of c19-findpos-after-element: the index
-// lies right after an element's close tag and right before a text, and the position's left sibling is exactly the id of that
-// text piece (offset 0 inside it) - "after the piece that is the floor of this id", i.e. behind the text on this replica.
-func (w *trWorld) noteAnchor(t *crdt.Tree, xmlBefore string, idx int, pos *crdt.TreePos) {
-	if pos == nil || !trAfterElement(xmlBefore, idx) || pos.LeftSiblingID.Equal(pos.ParentID) {
-		return
-	}
-	_, n := t.NodeMapByID.Floor(pos.LeftSiblingID)
-	if n == nil || !n.IsText() || !n.ID().Equal(pos.LeftSiblingID) {
-		return
-	}
-	if w.anchors == nil {
-		w.anchors = map[string]int{}
-	}
-	if _, seen := w.anchors[trID(pos.LeftSiblingID)]; !seen {
-		w.anchors[trID(pos.LeftSiblingID)] = n.Length()
-	}
-	w.c.Count("findpos:text-start-anchor")
-}
-
-// checkAnchors runs before a change executes on another copy: a recorded text-start anchor that this copy resolves to a piece of
-// another length denotes another place here than where it was built (the text was split by an edit the builder had not seen).
-func (w *trWorld) checkAnchors(rep *trReplica, cn *change.Change) {
-	if len(w.anchors) == 0 {
-		return
-	}
-	t := trRootTree(rep)
-	if t == nil {
-		return
-	}
-	look := func(pos *crdt.TreePos) {
-		if pos == nil {
-			return
-		}
-		k := trID(pos.LeftSiblingID)
-		orig, ok := w.anchors[k]
-		if !ok {
-			return
-		}
-		_, n := t.NodeMapByID.Floor(pos.LeftSiblingID)
-		if n != nil && n.IsText() && n.ID().Equal(pos.LeftSiblingID) && n.Length() != orig {
-			w.anchorSplit = append(w.anchorSplit, fmt.Sprintf("%s: piece of %d units where built, %d on %s", k, orig, n.Length(), rep.name))
-			w.c.Count("findpos:text-start-anchor-resolved-to-another-piece")
-		}
-	}
-	for _, op := range cn.Operations() {
-		switch o := op.(type) {
-		case *operations.TreeEdit:
-			look(o.FromPos())
-			look(o.ToPos())
-		case *operations.TreeStyle:
-			look(o.FromPos())
-			look(o.ToPos())
-		}
-	}
-}
-
 // trSymptoms inspects the trees of every replica.
 //
 //	c19-surrogate             a text node whose cached VisibleLength differs from its UTF-16 length (SplitText stores
 //	                          len(leftRune), a RUNE count, for the left half), or a text node holding U+FFFD (no generated
 //	                          content contains it: SplitText cut a surrogate pair and re-decoded both halves)
-//	c19-findpos-after-element a position built by FindPos for an index right after an element and right before a text, whose
-//	                          left sibling is exactly that text piece's id (noteAnchor), was resolved on another copy
-//	                          against a piece of a different length (checkAnchors): the same operation addressed two places
 //	c19-stale-visible-length  a root whose cached VisibleLength differs from the size of its own visible XML:
 //	                          SplitElement of a tombstoned element adds the split's padded length to the ancestors'
 //	                          VisibleLength
@@ -1132,9 +1055,6 @@ func (w *trWorld) trSymptoms() string {
 		return "KNOWN[c19-surrogate] "
 	case stale:
 		return "KNOWN[c19-stale-visible-length] "
-	case len(w.anchorSplit) > 0:
-		// the same operation addressed different places on different copies (evidence recorded by checkAnchors)
-		return "KNOWN[c19-findpos-after-element] "
 	}
 	return ""
 }
@@ -1159,15 +1079,6 @@ func trHasSupplementary(s string) bool {
 		}
 	}
 	return false
-}
-
-// trAfterElement: the index lies right after an element's close tag and right before text (same parent).
-func trAfterElement(xml string, idx int) bool {
-	toks, ok := trTokens(xml)
-	if !ok || idx+1 >= len(toks) || idx < 1 {
-		return false
-	}
-	return strings.HasPrefix(toks[idx], "</") && !strings.HasPrefix(toks[idx+1], "<")
 }
 
 // ---------------------------------------------------------------------------------------------
